@@ -9,6 +9,7 @@ from .recvunit import RecvUnit, Shape, keep_for, RECV_MUTANTS
 from .sendunit import SendUnit, SEND_MUTANTS, keep_for as skeep
 from .mqunit import MQUnit
 from .lemmas import LemmaUnit
+from .assemblyunit import AssemblyUnit
 from .zmqmodel import ZMQ, zmq_consts
 from . import c01
 
@@ -160,4 +161,4 @@ s = SendUnit(keep=skeep('C02.'))
 s.mutants = SEND_MUTANTS['C02']
 m = MQUnit(keep=keep_for('C02.'))
 m.mutants = tuple(x for x in MQUnit.mutants if 'C02' in x[4])
-UNITS = [r, s, m, WireLemmas(), LemmaUnit('C02.once lemma', once_lemmas)]
+UNITS = [r, s, m, WireLemmas(), LemmaUnit('C02.once lemma', once_lemmas), AssemblyUnit()]
